@@ -45,6 +45,14 @@ pub trait Write: Sized {
     { unimplemented!() }
 }
 
+/// R12: `&$s[..$n]` for `$s: &[u8]` (core::slice `Index<RangeTo<usize>>`): the first `$n` bytes; PANICS when
+/// `$n > $s.len()` — that is the named call-site obligation [slice_in_bounds].
+#[verifier::external_body]
+pub fn slice_prefix<'a>(s: &'a [u8], n: usize) -> (r: &'a [u8])
+    requires n <= s@.len(), /*@PL:slice_in_bounds*/
+    ensures r@ == s@.take(n as int),
+{ &s[..n] }
+
 /// digest::Digest (digest-0.10.7 src/digest.rs) as a bound: `update` absorbs the bytes.
 pub trait Digest: Sized {
     spec fn absorbed(&self) -> Seq<u8>;
